@@ -453,3 +453,27 @@ def cfg_of(func_node) -> CFG:
         c = CFG(func_node)
         _CFG_CACHE[id(func_node)] = c
     return c
+
+
+def enumerate_paths(cfg: CFG, src: Node, terminal, max_paths=2000, kinds=('normal', 'exc')):
+    """All acyclic paths from src to the first node satisfying terminal(node)
+    (terminal nodes end a path).  Returns list of node lists; raises OverflowError
+    beyond max_paths (reported as ANALYSIS-ERROR by the caller)."""
+    out = []
+    stack = [(src, [src], {id(src)})]
+    while stack:
+        n, path, seen = stack.pop()
+        if terminal(n) and n is not src:
+            out.append(path)
+            if len(out) > max_paths:
+                raise OverflowError('too many paths')
+            continue
+        succs = [(s, k) for s, k in n.succ if k in kinds]
+        if not succs:
+            out.append(path)
+            continue
+        for s, k in succs:
+            if id(s) in seen:
+                continue
+            stack.append((s, path + [s], seen | {id(s)}))
+    return out
